@@ -668,6 +668,8 @@ def generate(run_seed, deep=False):
     g, sc = st["gen"], st["sched"]
     cfg = gen_config(g)
     cfg["deep"] = bool(deep) and st["deep"].random() < 0.5
+    if bool(deep) and st["deep"].random() < 0.004:
+        return cfg, generate_giant(st["deep"], cfg)
     if cfg["deep"] and not cfg["big"]:      # thorough tier: longer histories, up to three networks
         cfg["length"] = st["deep"].randint(30, 70)
         cfg["nets"] = st["deep"].randint(1, 3)
@@ -741,6 +743,33 @@ def generate(run_seed, deep=False):
         elif "gc" in faults:
             ops.append({"c": c, "op": "gc"})
     return cfg, ops
+
+
+def generate_giant(g, cfg):
+    """Thorough tier only, one run in about 250: one environment with thousands of rows and a request
+    of thousands of rows (n * N just above 10**7), beyond the block / batch sizes a wrapper may use."""
+    cfg["giant"] = True
+    N = g.choice([2100, 2600])
+    n_big = 10 ** 7 // N + g.randint(1, 400)
+    p = g.choice([2, 3])
+    graph = np.zeros((p, p))
+    graph[0, p - 1] = 1
+    if p == 3 and g.random() < 0.5:
+        graph[1, 2] = 1
+    data = []
+    for k, Nk in enumerate([g.randint(20, 40), N]):
+        rows = list(range(Nk))
+        cols = []
+        for i in range(p):
+            g.shuffle(rows)
+            cols.append([100000.0 * (k + 1) + 10.0 * rows[r] + i + G.r2(g, 0, 0.4) for r in range(Nk)])
+        data.append(np.array(cols, dtype=float).T.copy())
+    seed = g.choice(cfg["seeds"])
+    return [{"op": "peer.config", "c": 0, "k": g.choice([1, 2]), "slack": False},
+            {"op": "net.new", "c": 0, "id": "n1", "graph": enc(graph), "data": [enc(d) for d in data], "verbose": False},
+            {"op": "net.sample", "c": 0, "net": "n1", "n": [g.randint(5, 40), n_big], "seed": seed},
+            {"op": "np.perturb", "c": 0, "kind": "draw", "dist": "normal", "n": 3},
+            {"op": "net.sample", "c": 0, "net": "n1", "n": g.randint(5, 40), "seed": seed}]
 
 
 RULE = ("Each run is one seeded history of 6-30 operations on 1-2 DRFNets (random DAGs with p<=6 incl. empty graphs, "
